@@ -68,7 +68,7 @@ pub fn run<T: DeserializeOwned + Serialize>(req: &Value, call: fn(&mut T, &str, 
             }
             Ok(Err(Unsup(m))) => return json!({"kind": "unsupported", "msg": m}),
             Ok(Ok(Err(e))) => {
-                return json!({"kind": "err", "step": i, "msg": format!("{e}").chars().take(300).collect::<String>(), "recv": serde_json::to_value(&obj).unwrap_or(Value::Null)});
+                return json!({"kind": "err", "step": i, "msg": format!("{e:#}").chars().take(600).collect::<String>(), "recv": serde_json::to_value(&obj).unwrap_or(Value::Null)});
             }
             Ok(Ok(Ok(v))) => last = v,
         }
@@ -221,7 +221,7 @@ fn run_free(req: &Value) -> Value {
                 return json!({"kind": "panic", "step": i, "msg": msg});
             }
             Ok(Err(Unsup(m))) => return json!({"kind": "unsupported", "msg": m}),
-            Ok(Ok(Err(e))) => return json!({"kind": "err", "step": i, "msg": format!("{e}").chars().take(300).collect::<String>()}),
+            Ok(Ok(Err(e))) => return json!({"kind": "err", "step": i, "msg": format!("{e:#}").chars().take(600).collect::<String>()}),
             Ok(Ok(Ok(v))) => last = v,
         }
     }
